@@ -287,10 +287,41 @@ def clause_c(rep, F):
     rep.floor("handler instances with an acceptance set", n, 30)
 
 
+def clause_e(rep, F):
+    """'a tab used as block indentation is an error' hangs on the scanner knowing it is at the start of a line: every function that
+    consumes input and moves the mark to a new line (writes mark.line) also sets leading_whitespace = true on every path that leaves it."""
+    from . import C12
+    n = 0
+    for k, f in sorted(F.fns.items()):
+        if f.crate != "saphyr_parser" or f.d.get("impl_adt") != SCANNER or f.name.startswith("new"):
+            continue
+        lw = C12.mark_field_writes(f, "line")
+        if not lw or not C12.consuming_calls(f):
+            continue
+        n += 1
+        sets = set()
+        for w in cfg.field_writes(f, SCANNER, "leading_whitespace"):
+            if w["kind"] == "assign" and w["stmt"]["rv"]["k"] == "use":
+                c = op_const(w["stmt"]["rv"]["a"])
+                if c is not None and const_value(c) is True:
+                    sets.add((w["bb"], w["idx"]))
+        bad = None
+        for bi, si, st in lw:
+            if any(b == bi and i > si for b, i in sets):
+                continue
+            p = cfg.flag_reach(f, bi, cfg.return_blocks(f), avoid={b for b, i in sets if b != bi})
+            if p is not None:
+                bad = p
+        rep.check(bad is None, "line-start-flag", short(k), "this function consumes a line break (advances mark.line) but can return without setting "
+                  "leading_whitespace: the next line's indentation is not recognised as such (tabs there are accepted)", site=f.span, detail={"path": bad})
+    rep.floor("functions that consume a line break", n, 1)
+
+
 def run(tier):
     rep = new_report(tier)
     F = facts.load()
     clause_a(rep, F)
+    clause_e(rep, F)
     clause_b(rep, F)
     clause_c(rep, F)
     clause_d(rep, F)
